@@ -1280,7 +1280,7 @@ coap_pdu_parse_opt_base(coap_pdu_t *pdu, uint32_t len) {
       res = 0;
     break;
   case COAP_OPTION_ECHO:
-    if (len > 40)
+    if (len < 1 || len > 40)
       res = 0;
     break;
   case COAP_OPTION_NORESPONSE:
